@@ -1072,16 +1072,26 @@ func init() {
 		ID:        "C07",
 		Technique: "lock-order graph, exact lock pairing with path-sensitive flags (flag-guarded deferred unlock, TryRLock web), blocking-under-lock and panic-exit rules from the lock simulator; only-via-edge path rules for the exactly-once unsubscribe and the success flags",
 		Explanation: "the acquired-while-holding graph over {sendMu, sendingMu, ChanCaster.mutex, pongC.L} is acyclic; every lock is released exactly once on every normal exit and by deferred calls on every panic exit (Send's flag-guarded deferred unlock, negative Add's TryRLock web); at the pong wait only sendMu remains held, ping.Add(delta) runs with nothing held and only if the read lock was NOT obtained, RUnlock only if it was; " +
-			"the spin continues iff !ok and ping.Add(0) == 0; markBroken broadcasts under pongC.L and is reachable only from failed sanity checks (followed by panic) and from defers guarded by a success flag that every normal exit sets; SubscribeContext registers the Unsubscribe hook once, unsubscribes only if stop() returned true, and then always (deferred before yield can run, or directly before the panic).",
+			"the spin continues iff !ok and ping.Add(0) == 0; markBroken broadcasts under pongC.L and is reachable only from failed sanity checks (followed by panic) and from defers guarded by a success flag that every normal exit sets; SubscribeContext registers the Unsubscribe hook once, unsubscribes only if stop() returned true, and then always (deferred before yield can run, or directly before the panic); " +
+			"the acknowledgement count is waited for in a loop and consumed only while one is owed, one Send at a time from delivery to acknowledgement (a lost or extra pong leaves a Send waiting for ever); the caster's own validations (a panic inside ChanCaster.Send / Add is a false invariant panic of the ChanPubSub) are part of this property's obligations.",
 		NotDecided: "absence of deadlock over all interleavings of the atomics protocol (the structural conditions are decided; the interleaving argument is not).",
 		Build: func(c *Ctx) []*an.Oblig {
 			pubsubC07(c)
 			casterC08(c)
+			pubsubC06(c) // the acknowledgement accounting: a lost or extra pong leaves a Send waiting for ever
 			out := c.sel(func(o *an.Oblig) bool {
 				if isUndecided(o) || o.Rule == "ANCHOR" {
 					return true
 				}
 				if ruleIn(o, "P", "B", "PX", "SL", "REQ") && funcHas(o, "(*ChanPubSub)", "(*ChanCaster)") {
+					return true
+				}
+				// waiting for acknowledgements in a loop, and the deliver->acknowledge phase of one Send at a time: without
+				// either, the pong count of one Send is consumed by another's waiters and never returns to zero
+				if ruleIn(o, "WL", "S") && subjHas(o, "ChanPubSub.pong") {
+					return true
+				}
+				if o.Rule == "AT" && funcHas(o, "(*ChanPubSub).Send") {
 					return true
 				}
 				if o.Rule == "O" && subjHas(o, "ChanPubSub", "ChanCaster") {
@@ -1091,7 +1101,9 @@ func init() {
 			})
 			var mine []*an.Oblig
 			for _, o := range c.C.List {
-				if funcHas(o, "(*ChanPubSub)") || o.Rule == "ANCHOR" || (funcHas(o, "(*ChanCaster).Add") && subjHas(o, "absorbed")) {
+				// (the caster's own validations included: a panic of ChanCaster.Send / Add inside a ChanPubSub call is a false
+				// invariant panic of the ChanPubSub, which then marks the instance broken for good)
+				if funcHas(o, "(*ChanPubSub)", "(*ChanCaster).Send", "(*ChanCaster).Add") || o.Rule == "ANCHOR" {
 					mine = append(mine, o)
 				}
 			}
@@ -1165,10 +1177,10 @@ func hiLoOf(fn *ssa.Function, state ssa.Value) (hi, lo ssa.Value) {
 		if cv.Type().String() != "uint32" {
 			continue
 		}
-		if cv.X == state {
+		if stripCT(cv.X) == stripCT(state) {
 			lo = cv
 		}
-		if sh, ok := cv.X.(*ssa.BinOp); ok && sh.Op == token.SHR && sh.X == state {
+		if sh, ok := stripCT(cv.X).(*ssa.BinOp); ok && sh.Op == token.SHR && stripCT(sh.X) == stripCT(state) {
 			if k, isK := constInt(sh.Y); isK && k == 32 {
 				hi = cv
 			}
@@ -1267,7 +1279,11 @@ func casterAddConds(c *Ctx, q *fq, adds []ssa.Instruction) {
 			viaRecv := len(recvs) > 0 && P.PathExists(q.fn, recvs[0], an.Is(r), nil, nil)
 			got := P.PathCond(q.fn, a.Block(), r, keep)
 			var want an.DNF
-			if viaRecv {
+			// one return shared by the plain and the absorbing case (single-exit form): reached iff either holds
+			wantBoth := an.DNF{conj(A, B, C), conj(A, B, lit(L.Minus(H), an.SNeg|an.SPos), E)}
+			if okBoth, _ := an.EquivDNF(got, wantBoth); viaRecv && okBoth {
+				q.add("COND", "a negative Add returns iff remaining hi <= Max, Max-hi >= |delta| and (lo == hi, or lo == Max + hi after absorbing)", true, "reached iff that condition", r)
+			} else if viaRecv {
 				want = an.DNF{conj(A, B, E)}
 				// the return after the loop is also reached with zero iterations: same condition
 				ok, cex := an.EquivDNF(got, an.DNF{conj(A, B, lit(L.Minus(H), an.SNeg|an.SPos), E)})
@@ -1359,4 +1375,23 @@ func loadOf(al *ssa.Alloc) ssa.Value {
 		}
 	}
 	return al
+}
+
+// stripCT looks through conversions between types of the same representation (a named uint64 and uint64).
+func stripCT(v ssa.Value) ssa.Value {
+	for {
+		switch x := v.(type) {
+		case *ssa.ChangeType:
+			v = x.X
+			continue
+		case *ssa.Convert:
+			bt, ok1 := x.Type().Underlying().(*types.Basic)
+			bf, ok2 := x.X.Type().Underlying().(*types.Basic)
+			if ok1 && ok2 && bt.Kind() == bf.Kind() {
+				v = x.X
+				continue
+			}
+		}
+		return v
+	}
 }
